@@ -76,6 +76,9 @@ static int cfg_print_pff_indent(cfg_t *cfg, FILE *fp,
 #define STATE_EOF -1
 #define STATE_ERROR 1
 
+/* Sections (known or ignored) are parsed recursively, keep the C stack bounded */
+#define MAX_SECTION_DEPTH 1000
+
 #ifndef HAVE_FMEMOPEN
 extern FILE *fmemopen(void *buf, size_t size, const char *type);
 #endif
@@ -1526,6 +1529,11 @@ static int cfg_parse_internal(cfg_t *cfg, int level, int force_state, cfg_opt_t 
 				goto error;
 			}
 
+			if (level >= MAX_SECTION_DEPTH) {
+				cfg_error(cfg, _("sections nested too deeply"));
+				goto error;
+			}
+
 			val = cfg_setopt(cfg, opt, opttitle);
 			if (!val)
 				goto error;
@@ -1635,6 +1643,10 @@ static int cfg_parse_internal(cfg_t *cfg, int level, int force_state, cfg_opt_t 
 
 		case 12: /* unknown option, tok is the first token of the sub-section's body */
 			if (tok == CFGT_STR) {
+				if (level >= MAX_SECTION_DEPTH) {
+					cfg_error(cfg, _("sections nested too deeply"));
+					goto error;
+				}
 				/* name of the first item, recursively ignore the items up to
 				 * and including the closing brace of the sub-section */
 				rc = cfg_parse_internal(cfg, level + 1, 10, NULL);
